@@ -55,7 +55,11 @@ func (fr *Frame) call(ins ssa.Instruction, c *ssa.CallCommon, st *State) []Term 
 			cx.argVs = append(cx.argVs, a)
 		}
 		cx.name = ifaceMethodName(c)
-		rs = fr.dispatchNamed(cx)
+		if cases, recvs, idx, ok := fr.staticIfaceSlice(c); ok {
+			rs = fr.dispatchCasesRecv(cx, cases, recvs, idx)
+		} else {
+			rs = fr.dispatchNamed(cx)
+		}
 	} else if b, ok := c.Value.(*ssa.Builtin); ok {
 		for _, a := range c.Args {
 			cx.args = append(cx.args, fr.val(a))
@@ -164,6 +168,75 @@ func (fr *Frame) staticFuncSlice(v ssa.Value) ([]*Closure, Term, bool) {
 	return cases, fr.val(ia.Index), true
 }
 
+// staticIfaceSlice: an interface method is invoked on a value loaded from a slice literal whose
+// elements are MakeInterface of statically typed values (`for _, r := range []I{a, b, c} { r.M() }`).
+// Returns the concrete methods and receiver terms per element.
+func (fr *Frame) staticIfaceSlice(c *ssa.CallCommon) ([]*Closure, []Term, Term, bool) {
+	ld, ok := c.Value.(*ssa.UnOp)
+	if !ok {
+		return nil, nil, "", false
+	}
+	ia, ok := ld.X.(*ssa.IndexAddr)
+	if !ok {
+		return nil, nil, "", false
+	}
+	sl, ok := ia.X.(*ssa.Slice)
+	if !ok || sl.Low != nil || sl.High != nil {
+		return nil, nil, "", false
+	}
+	al, ok := sl.X.(*ssa.Alloc)
+	if !ok {
+		return nil, nil, "", false
+	}
+	at, ok := al.Type().Underlying().(*types.Pointer).Elem().Underlying().(*types.Array)
+	if !ok || at.Len() > 8 {
+		return nil, nil, "", false
+	}
+	cases := make([]*Closure, at.Len())
+	recvs := make([]Term, at.Len())
+	for _, r := range *al.Referrers() {
+		ea, ok := r.(*ssa.IndexAddr)
+		if !ok {
+			continue
+		}
+		k, ok := ea.Index.(*ssa.Const)
+		if !ok {
+			return nil, nil, "", false
+		}
+		for _, r2 := range *ea.Referrers() {
+			if st, ok := r2.(*ssa.Store); ok && st.Addr == ea {
+				mi, ok := st.Val.(*ssa.MakeInterface)
+				if !ok {
+					return nil, nil, "", false
+				}
+				ms := fr.eng.prog.SSA.MethodSets.MethodSet(mi.X.Type())
+				sel := ms.Lookup(c.Method.Pkg(), c.Method.Name())
+				if sel == nil {
+					return nil, nil, "", false
+				}
+				fn := fr.eng.prog.SSA.MethodValue(sel)
+				if fn == nil {
+					return nil, nil, "", false
+				}
+				cases[int(k.Int64())] = &Closure{fn: fn}
+				recvs[int(k.Int64())] = fr.val(mi.X)
+			}
+		}
+	}
+	for _, c := range cases {
+		if c == nil {
+			return nil, nil, "", false
+		}
+	}
+	return cases, recvs, fr.val(ia.Index), true
+}
+
+func (fr *Frame) dispatchCasesRecv(cx *callCtx, cases []*Closure, recvs []Term, idx Term) []Term {
+	fr.caseRecvs = recvs
+	defer func() { fr.caseRecvs = nil }()
+	return fr.dispatchCases(cx, cases, idx)
+}
+
 // dispatchCases executes the call once per possible callee (under idx == k) and merges the outcomes.
 func (fr *Frame) dispatchCases(cx *callCtx, cases []*Closure, idx Term) []Term {
 	e := fr.eng
@@ -175,6 +248,15 @@ func (fr *Frame) dispatchCases(cx *callCtx, cases []*Closure, idx Term) []Term {
 		st := base.clone()
 		st.pc = vc.name("pc", "Bool", and(base.pc, eq(idx, fmt.Sprint(k))))
 		sub := &callCtx{fr: fr, st: st, args: cx.args, argVs: cx.argVs, instr: cx.instr, common: cx.common, sig: cx.sig, callee: clo.fn, name: canonName(clo.fn)}
+		if fr.caseRecvs != nil {
+			sub.args = append([]Term{fr.caseRecvs[k]}, cx.args[1:]...)
+			sub.argTs = []types.Type{clo.fn.Signature.Recv().Type()}
+			for _, v := range cx.argVs[1:] {
+				sub.argTs = append(sub.argTs, v.Type())
+			}
+			sub.sig = clo.fn.Signature
+			clo = nil
+		}
 		rs := fr.dispatchStatic(sub, clo)
 		edges = append(edges, edgeIn{st: st})
 		results = append(results, rs)
@@ -213,6 +295,20 @@ func (fr *Frame) dispatchNamed(cx *callCtx) []Term {
 	e := fr.eng
 	cx.fillTypes()
 	fr.checkSites(cx)
+	// trusted contract on an interface method: `//@ func (Iface).Method` in the interface's package
+	if i := strings.LastIndex(cx.name, ")."); i > 0 && strings.HasPrefix(cx.name, "(") {
+		full := cx.name[1:i]
+		if j := strings.LastIndex(full, "."); j > 0 {
+			key := full[:j] + ".(" + full[j+1:] + ")" + cx.name[i+1:]
+			if con := e.cs.Fns[key]; con != nil {
+				if !con.Trusted {
+					fr.unsup("contract on interface method %s must be marked trusted", key)
+				}
+				e.vc.usedCon[key] = true
+				return fr.applyContract(cx, con)
+			}
+		}
+	}
 	if s := lookupStub(cx.name); s != nil {
 		e.vc.stubs[cx.name] = true
 		return s(cx)
